@@ -30,11 +30,13 @@ THEOREMS = ['C12_expand_shorthand', 'C12_interpolates_evenly_spaced',
             'C12_converted_iff_nonzero', 'C12_data_card_max_zero',
             'C12_chain_zero_iff', 'C12_option_tokens_app',
             'C12_last_value_app', 'C12_like_written_zero_iff',
-            'C12_like_written_local_zero_iff',
+            'C12_like_written_local_zero_iff', 'C12_fill_array_read_locally',
             'C12_cell_card_zero_iff',
             'C12_plain_card_zero_iff', 'C12_conv_keys_not_skipped',
             'C12_written_volumes', 'C12_generated_converted_iff',
+            'C12_lattice_elements_converted_iff_linked',
             'C12_imp_card_text', 'C12_void_card_text',
+            'C12_void_card_text_sep',
             'C12_nonvoid_card_text', 'C12_like_card_text',
             'C12_parse_deck_text_split']
 TRUSTED = [
@@ -1093,17 +1095,30 @@ def run(res, tier, seed, proofs_ok):
                 'non-trivial = >= 2 tokens / cells, for (c) a deck with both '
                 'zero and non-zero cells')
     import c12_cov
+    import time
+    marks = [('start', time.time())]
+
+    def mark(name):
+        marks.append((name, time.time()))
     cov = c12_cov.LineCov(c12_cov.anchored_functions())
     with cov:
         corpus(res)
         all_zero_deck(res)
+        mark('corpus')
         exhaustive_decks(res, quick)
+        mark('exhaustive decks')
         expand_ties(res, rng, 300 if quick else 3000, 200 if quick else 2000,
                     2 if quick else 3)
-        parse_ties(res, rng, 250 if quick else 2000, 150 if quick else 1000)
+        mark('tie:expand')
+        parse_ties(res, rng, 220 if quick else 2000, 130 if quick else 1000)
+        mark('tie:parse')
     coverage_obligation(res, cov)
     lattice_sweep(res, 30 if quick else 150, rng)
-    conversion_sweep(res, rng, 250 if quick else 1800, 40 if quick else 200)
+    mark('lattice sweep')
+    conversion_sweep(res, rng, 220 if quick else 1800, 40 if quick else 200)
+    mark('conversion sweep + tie:conv + tie:fill')
+    res.extra['section_seconds'] = {
+        name: round(t - marks[k][1], 1) for k, (name, t) in enumerate(marks[1:])}
 
 
 def coverage_obligation(res, cov):
